@@ -36,6 +36,12 @@ if REPO not in sys.path:
     sys.path.insert(0, REPO)
 
 
+def check_deap_origin():
+    import deap
+    if not os.path.realpath(deap.__file__).startswith(os.path.realpath(REPO) + os.sep):
+        raise Infra("deap imported from %s, not from %s" % (deap.__file__, REPO))
+
+
 class Infra(Exception):
     """Infrastructure problem (exit 2, never a VIOLATION)."""
 
@@ -51,12 +57,40 @@ class Case(object):
     tag         branch / category label for the input-distribution histogram
     nontrivial  whether the case reaches a non-default branch by the module's stated rule
     """
-    __slots__ = ("desc", "lines", "expect", "oracle", "tag", "nontrivial")
+    __slots__ = ("desc", "lines", "expect", "oracle", "tag", "nontrivial", "tol")
 
-    def __init__(self, desc, lines, expect, oracle=None, tag="", nontrivial=True):
+    def __init__(self, desc, lines, expect, oracle=None, tag="", nontrivial=True, tol=None):
+        """tol: None = answers must be textually equal; a float = numeric tokens (split on
+        space , ;) are compared with that relative tolerance (absolute tolerance tol*1e-3 near 0),
+        all other tokens textually (real-valued regime; never bitwise float comparison)."""
         assert len(lines) == len(expect), (lines, expect)
         self.desc, self.lines, self.expect = desc, list(lines), [str(e) for e in expect]
-        self.oracle, self.tag, self.nontrivial = oracle, tag, nontrivial
+        self.oracle, self.tag, self.nontrivial, self.tol = oracle, tag, nontrivial, tol
+
+
+_TOK = re.compile(r"[ ,;]")
+
+
+def answers_equal(expect, got, tol=None):
+    if expect == got:
+        return True
+    if tol is None:
+        return False
+    a, b = _TOK.split(expect), _TOK.split(got)
+    if len(a) != len(b) or _TOK.findall(expect) != _TOK.findall(got):
+        return False
+    for x, y in zip(a, b):
+        if x == y:
+            continue
+        try:
+            fx, fy = float(x), float(y)
+        except ValueError:
+            return False
+        if fx != fx or fy != fy:          # NaN on exactly one side / both: textual only
+            return False
+        if abs(fx - fy) > tol * max(abs(fx), abs(fy)) and abs(fx - fy) > tol * 1e-3:
+            return False
+    return True
 
 
 # ----------------------------------------------------------------------------------------
@@ -314,6 +348,7 @@ def shrink_desc(mod, desc, still_fails, limit=300):
 
 def run_check(pid, tier, seed, replay=None):
     t0 = time.time()
+    check_deap_origin()
     mod = importlib.import_module("props." + pid.lower())
     thorough = tier == "thorough"
     rng = random.Random((seed * 1000003 + int(pid[1:])) & 0xFFFFFFFF)
@@ -373,7 +408,7 @@ def run_check(pid, tier, seed, replay=None):
     for c in cases:
         n = len(c.lines)
         for j in range(n):
-            if got[k + j] != c.expect[j]:
+            if not answers_equal(c.expect[j], got[k + j], c.tol):
                 disagreements.append((c, c.lines[j], c.expect[j], got[k + j]))
                 break
         k += n
@@ -428,11 +463,12 @@ def run_check(pid, tier, seed, replay=None):
                     cx = safe_evaluate(mod, x)
                     if not cx.lines:
                         return False
-                    return run_driver(cx.lines) != cx.expect
+                    gx = run_driver(cx.lines)
+                    return any(not answers_equal(e, g2, cx.tol) for e, g2 in zip(cx.expect, gx))
                 d = shrink_desc(mod, c.desc, still)
                 cx = safe_evaluate(mod, d)
                 gx = run_driver(cx.lines) if cx.lines else []
-                diff = [(l, e, g2) for l, e, g2 in zip(cx.lines, cx.expect, gx) if e != g2][:3]
+                diff = [(l, e, g2) for l, e, g2 in zip(cx.lines, cx.expect, gx) if not answers_equal(e, g2, cx.tol)][:3]
                 payload["correspondence_disagreement"] = {
                     "case": d, "first_differences(line, implementation, model)": diff or [(line, exp, g)],
                     "count": len(disagreements)}
@@ -508,9 +544,9 @@ def run_replay(mod, pid, path):
     got = run_driver(c.lines) if c.lines else []
     print("case: " + json.dumps(_jsonable(d), default=repr)[:2000])
     for l, e, g in zip(c.lines, c.expect, got):
-        print("line: %s\n  implementation: %s\n  model:          %s%s" % (l, e, g, "" if e == g else "   <-- differ"))
+        print("line: %s\n  implementation: %s\n  model:          %s%s" % (l, e, g, "" if answers_equal(e, g, c.tol) else "   <-- differ"))
     print("oracle: " + ("holds" if c.oracle is None else "FAILS: " + c.oracle))
-    bad = c.oracle is not None or any(e != g for e, g in zip(c.expect, got))
+    bad = c.oracle is not None or any(not answers_equal(e, g, c.tol) for e, g in zip(c.expect, got))
     if c.oracle is not None:
         print("VIOLATION property=%s replay=%s" % (pid, path))
     return 1 if bad else 0
